@@ -36,8 +36,8 @@ SORT_BOOL = K.SortApp('SortBool')
 
 USER_SORTS = ['SortExp', 'SortVal', 'SortFoo', 'SortTree', 'SortNat', 'SortId', 'SortStmt', 'SortPgm', "SortA'Unds'b", 'Sorta', 'a']
 CELL_NAMES = ['k', 'state', 'env', 'store', 'out', 'in', 'stack', 'pc']
-CONST_NAMES = ['a', 'b', 'c', 'd', 'zero', 'nil', 'init', 'next', 'skip', 'FooA', 'FooB', 'x', 'kseq0', 'ksym_a', 'inhabitant']
-CTOR_NAMES = ['f', 'g', 'h', 'node', 'succ', 'cons', 'plus', 'seq', 'assign', 'pair2', 'app']
+CONST_NAMES = ['a', 'b', 'c', 'd', 'zero', 'nil', 'init', 'next', 'skip', 'FooA', 'FooB', 'x', 'kseq0', 'ksym_a', 'inhabitant', 'mzero', 'yes', 'k0', '_unit']
+CTOR_NAMES = ['f', 'g', 'h', 'node', 'succ', 'cons', 'plus', 'seq', 'assign', 'pair2', 'app', 'mul', 'kitem', 'sym']
 FUN_NAMES = ['reverse', 'size', 'lookup', 'eval']
 VAR_NAMES = ['VarX', 'VarY', 'VarZ', 'VarT1', 'VarT2', "Var'Unds'DotVar0", "Var'Unds'DotVar1", 'VarHOLE', 'VarK', 'VarN', 'VarM',
              'VarRest', 'X', 'x', 'X0', 'X1', 'Var0', 'Var1', 'phi0', 'VarXs']
@@ -225,22 +225,26 @@ def gen_signature(rng: random.Random) -> Sig:
         lo = max([smod[s.name] for s in sorts if isinstance(s, K.SortApp)] or [0])
         return rng.randint(lo, nm - 1) if rng.random() < 0.5 else lo
 
+    def pref():
+        # K labels start with 'Lbl'; hand-written Kore definitions use bare names (which may start with any letter, also those of 'ksym_')
+        return 'Lbl' if rng.random() < 0.75 else ''
+
     # constants: every user sort is inhabited by at least one functional constructor constant
     cnames = rng.sample(CONST_NAMES, len(CONST_NAMES))
     for s in user_sorts:
         for _ in range(rng.randint(1, 3)):
             if cnames:
-                sg.add_sym(Sym('Lbl' + cnames.pop(), (), (), s, True, True, module=modof(s)))
+                sg.add_sym(Sym(pref() + cnames.pop(), (), (), s, True, True, module=modof(s)))
     # n-ary constructors
     for n in rng.sample(CTOR_NAMES, rng.randint(1, 5)):
         res = rng.choice(user_sorts)
         args = tuple(rng.choice(sg.value_sorts) for _ in range(rng.randint(1, 3)))
-        sg.add_sym(Sym('Lbl' + n, (), args, res, True, True, module=modof(res, *args)))
+        sg.add_sym(Sym(pref() + n, (), args, res, True, True, module=modof(res, *args)))
     # functions (functional, not constructors) and symbols that are neither
     for n in rng.sample(FUN_NAMES, rng.randint(0, 2)):
         res = rng.choice(user_sorts)
         args = tuple(rng.choice(sg.value_sorts) for _ in range(rng.randint(1, 2)))
-        sg.add_sym(Sym('Lbl' + n, (), args, res, True, False, extra_attrs=('function',), module=modof(res, *args)))
+        sg.add_sym(Sym(pref() + n, (), args, res, True, False, extra_attrs=('function',), module=modof(res, *args)))
     if rng.random() < 0.5:
         res = rng.choice(user_sorts)
         args = tuple(rng.choice(sg.value_sorts) for _ in range(rng.randint(0, 2)))
